@@ -585,10 +585,42 @@ func runC17(r *Run) {
 		okUpd := true
 		if s.kind == "add" && s.section != "alsoKnownAs" {
 			okUpd = false
+			// a replacement is a store into an element of the rebuilt list under equality of the two ids; it
+			// happens under hit(id set, id) — written inline, or in a helper that is called under the hit
+			elemStoreUnderIDEq := func(g *ssa.Function) []*ssa.Store {
+				gf := r.E.Facts(g, core.Ctx{})
+				var out []*ssa.Store
+				for _, b := range g.Blocks {
+					for _, ins := range b.Instrs {
+						st, isSt := ins.(*ssa.Store)
+						if !isSt {
+							continue
+						}
+						ia, isIA := st.Addr.(*ssa.IndexAddr)
+						if !isIA {
+							continue
+						}
+						if _, isSlice := ia.X.Type().Underlying().(*types.Slice); !isSlice {
+							continue
+						}
+						for _, fc := range gf.At(st) {
+							if fc.Kind == "cmp" && fc.Op == "==" && fc.A.Op == "call" && fc.B.Op == "call" && strings.HasSuffix(fc.A.Name, ".ID") && strings.HasSuffix(fc.B.Name, ".ID") {
+								out = append(out, st)
+							}
+						}
+					}
+				}
+				return out
+			}
+			for _, st := range elemStoreUnderIDEq(f) {
+				if core.HasFact(sf.At(st), "hit(_, _)") {
+					okUpd = true
+				}
+			}
 			for _, b := range f.Blocks {
 				for _, ins := range b.Instrs {
 					if c, isC := ins.(*ssa.Call); isC {
-						if sc := c.Common().StaticCallee(); sc != nil && r.P.IsSubject(sc) && strings.HasPrefix(sc.Name(), "update") {
+						if sc := c.Common().StaticCallee(); sc != nil && r.P.IsSubject(sc) && len(sc.Blocks) > 0 && len(elemStoreUnderIDEq(sc)) > 0 {
 							okUpd = core.HasFact(sf.At(c), "hit(_, _)")
 						}
 					}
